@@ -78,6 +78,28 @@ pub struct Shared {
     pub tp: Option<CL03CommitmentPublicKey>,
 }
 
+/// the honest proof of the case, or None for a hidden-position list given out of ascending order that the library
+/// does not go through with (that spelling is the caller's choice; only what the library accepts is judged)
+pub fn view_or_skip<CS: CLCiphersuite>(rep: &Report, ck: &str, c: &Case, sh: &Shared) -> Result<Option<View>, Fail>
+where
+    CS::HashAlg: digest::Digest,
+{
+    let out_of_order = c.hidden_list.windows(2).any(|w| w[0] >= w[1]);
+    match build_view::<CS>(c, sh) {
+        Ok(v) => {
+            if out_of_order {
+                rep.class("hidden-list-not-ascending:accepted-by-the-library");
+            }
+            Ok(Some(v))
+        }
+        Err(_) if out_of_order => {
+            rep.class("hidden-list-not-ascending:refused-by-the-library");
+            Ok(None)
+        }
+        Err(e) => rep.fail(ck, "honest-generation-failed", e, json!({"case": c})).map(|_| None),
+    }
+}
+
 pub fn build_view<CS: CLCiphersuite>(c: &Case, sh: &Shared) -> Result<View, String>
 where
     CS::HashAlg: digest::Digest,
@@ -665,6 +687,14 @@ pub fn fixed_cases(ctx: &Ctx, nmax: usize) -> Vec<Case> {
         k += 1;
         out.push(Case { key: (k * 7919) as u16, n, hidden_mask: 0, kind: 2, seed: (ctx.seed as u32).wrapping_add(k), small_mask: 0, hidden_list: hl, spare: 0, eq_hidden: false });
     }
+    // issuance proofs (with and without the trusted party) with the hidden positions listed out of ascending order:
+    // a caller's spelling of the same set; what the library accepts in that spelling is judged like any other proof
+    for (n, hl) in [(2usize, vec![1usize, 0]), (3, vec![2, 0]), (3, vec![1, 2, 0]), (3, vec![2, 1]), (4, vec![3, 1, 0]), (5, vec![4, 0, 2])] {
+        for kind in 0..2u8 {
+            k += 1;
+            out.push(Case { key: (k * 7919) as u16, n, hidden_mask: 0, kind, seed: (ctx.seed as u32).wrapping_add(k), small_mask: 0, hidden_list: hl.clone(), spare: (k % 2) as u8, eq_hidden: false });
+        }
+    }
     // larger attribute counts: first / last / alternating positions hidden
     for n in [6usize, 8] {
         for (j, mask) in [1u8, 1 << (n - 1), 0b10100101 & (((1u16 << n) - 1) as u8)].into_iter().enumerate() {
@@ -687,9 +717,9 @@ pub fn run(ctx: &Ctx, rep: &Report) -> Meta {
     let nmax = ctx.tier.pick(3usize, 5usize);
     let fixed = fixed_cases(ctx, nmax);
     let one = |rep: &Report, ck: &str, c: &Case| -> CheckResult {
-        match build_view::<CL1024Sha256>(c, &sh) {
-            Ok(v) => check_view(rep, ck, c, &v),
-            Err(e) => rep.fail(ck, "honest-generation-failed", e, json!({"case": c})),
+        match view_or_skip::<CL1024Sha256>(rep, ck, c, &sh)? {
+            Some(v) => check_view(rep, ck, c, &v),
+            None => Ok(()),
         }
     };
     par_items(ctx, rep, "every-hidden-set", &fixed, |c| one(rep, "every-hidden-set", c));
@@ -734,7 +764,7 @@ pub fn run(ctx: &Ctx, rep: &Report) -> Meta {
         }
     }
     Meta {
-        rule: "honest issuance proofs (with and without trusted-party commitment) and signature proofs for EVERY non-empty hidden set (n = 1..3 quick / 1..5 thorough) plus generated cases, high-entropy 256-bit attributes only, issuers with 0..3 more bases than attributes, a third of the generations right after a refused request (hidden position out of range) on the same thread; \
+        rule: "honest issuance proofs (with and without trusted-party commitment) and signature proofs for EVERY non-empty hidden set (n = 1..3 quick / 1..5 thorough) plus generated cases, issuance proofs whose hidden positions are listed in descending / mixed order (judged when the library goes through with that spelling), high-entropy 256-bit attributes only, issuers with 0..3 more bases than attributes, a third of the generations right after a refused request (hidden position out of range) on the same thread; \
                attacker programs over serde_json::to_value(proof) and the public base pairs {(a_i, b), (g_i, h)}: (A) every (value, randomness)-shaped object tested as an opening of every secret the prover holds, \
                (B) every integer leaf as value against every integer leaf as randomness, (C) recovery of the signature's v as V * g^(-rho) over all leaf pairs, (D) dictionary attack with the true hidden attribute and a decoy in seed-shuffled order, by opening recomputation, by arithmetic relations (a field equal to or a multiple of the candidate) and by difference quotients (s - s')/(c - c') over all response pairs and all pairs of public challenges (shared blinding inside one proof), two-presentations: two proofs of one credential for the same commitment key generated in sequence on one thread share no field of 64 bits or more and no difference quotient (s - s')/(c - c') of a field over the two challenges equals e, s, v or a hidden attribute; (H) no two fields carry the same value unless both are copies of a commitment the verifier compares (half of the cases with two or more hidden attributes give them all the same value), over the whole run no field that belongs to a hidden attribute is always at least 24 bits shorter when the attribute is below 2^64; (I) E_a_2 / E_b_2 of every embedded range proof are not the bare powers g^x of the second parts recomputed by the witness holder, (G) no field outside the stripped commitment randomness is exactly 0 or 1 (also with hidden attributes forced to 0 / 1: small-attributes), (F, by the witness holder) the blinding part V / M of every group-element field for every message part M in {one attribute, all, hidden, revealed, none} under each base family: two different fields with the same blinding part whose message parts differ in a hidden position, or a blinding part equal to 1; \
                oracle: no program succeeds; positive control: the programs find a planted opening; non-trivial = proof with >= 1 hidden attribute; evaluations = attacker-program runs"
@@ -752,8 +782,8 @@ pub fn replay(ctx: &Ctx, rep: &Report, ck: &str, case: &Value) -> CheckResult {
     if ck == "two-presentations" {
         return two_presentations::<CL1024Sha256>(rep, ck, &c, &sh);
     }
-    match build_view::<CL1024Sha256>(&c, &sh) {
-        Ok(v) => check_view(rep, ck, &c, &v),
-        Err(e) => rep.fail(ck, "honest-generation-failed", e, json!({"case": c})),
+    match view_or_skip::<CL1024Sha256>(rep, ck, &c, &sh)? {
+        Some(v) => check_view(rep, ck, &c, &v),
+        None => Ok(()),
     }
 }
